@@ -1,6 +1,7 @@
 """prompt for a sub-agent that produces behaviour-preserving refactorings of the code behind a property (false-alarm probes)"""
 import json, sys
 pid, tag = sys.argv[1], sys.argv[2]
+EXTRA = sys.argv[3] if len(sys.argv) > 3 else ''
 p = [json.loads(l) for l in open('/verif/properties.jsonl') if json.loads(l)['id'] == pid][0]
 wt = '/tmp/seed/%s' % tag
 mech = '\n'.join('- %s (%s)' % (m['name'], m['where']) for m in p['anchors'].get('mechanism', []))
@@ -18,6 +19,7 @@ A private git worktree of the repository is at {wt} (at the repository's current
 
 ## What to deliver
 Six SEPARATE patches (each applies to the unchanged HEAD on its own; do not stack them), each a different style of refactoring touching the functions listed above, for example: renaming locals/parameters; restructuring a loop (while-let <-> loop+match, for <-> while with an index, iterator adaptors <-> explicit loop); replacing `?` by an explicit match that returns the converted error (or vice versa); splitting or merging conditions (a || b into two ifs, nested ifs into &&); inverting an if/else; introducing or inlining a local variable or a small private helper function in the same module; reordering independent statements; hoisting a loop-invariant computation that really is invariant; replacing a comparison by its equivalent mirrored form; early-return style <-> nested style. Each refactoring must keep behaviour EXACTLY the same for all inputs, orders of calls and failure cases (same results, same errors, same side effects in the same order where order is observable), must compile without new warnings, and the tests of the affected crate(s) must pass.
+{EXTRA}
 Make them substantive (not just whitespace/comments): each should change the control-flow or data-flow SHAPE of at least one of the listed functions while preserving semantics.
 For each patch i in 1..6: reset the tree (`git checkout -- .`), make the change, run the affected crate's tests, then save `git diff` to {wt}/OUT/refactor_i.diff. Also write {wt}/OUT/meta.json: a list of {{"file": "refactor_i.diff", "functions": [...], "style": "<what kind of refactoring>", "why_equivalent": "<one or two sentences>", "tests_run": "<command>", "tests_passed": true}}.
 Leave the tree clean at the end. Reply with a short summary of the six refactorings.""")
